@@ -673,6 +673,10 @@ func (a *effAnalysis) isLib(fn *ssa.Function) bool {
 	if p == nil && fn.Parent() != nil {
 		p = fn.Parent().Pkg
 	}
+	if p == nil && fn.Synthetic != "" && fn.Object() != nil && fn.Object().Pkg() != nil {
+		// a bound-method or thunk wrapper of a library method is library code
+		return strings.HasPrefix(fn.Object().Pkg().Path(), a.e.c.ModPath)
+	}
 	return p != nil && strings.HasPrefix(p.Pkg.Path(), a.e.c.ModPath)
 }
 
